@@ -244,7 +244,20 @@ def check(ctx):
         raise AnalysisError("State transition methods missing")
 
     def shape(f, counter):
-        return [norm(s).replace(counter, "<counter>") for s in f.node.body if not (isinstance(s, ast.Expr) and isinstance(s.value, ast.Constant))]
+        # modulo the incremented counter and modulo the names of locals (numbered in order of first appearance)
+        import copy as _copy
+        body = [_copy.deepcopy(s) for s in f.node.body if not (isinstance(s, ast.Expr) and isinstance(s.value, ast.Constant))]
+        locals_ = {}
+        params = set(f.params)
+        for s_ in body:
+            for n_ in ast.walk(s_):
+                if isinstance(n_, ast.Name) and n_.id not in params and (n_.id in locals_ or isinstance(n_.ctx, ast.Store)):
+                    locals_.setdefault(n_.id, f"_v{len(locals_)}")
+        for s_ in body:
+            for n_ in ast.walk(s_):
+                if isinstance(n_, ast.Name) and n_.id in locals_:
+                    n_.id = locals_[n_.id]
+        return [norm(s_).replace(counter, "<counter>") for s_ in body]
     ok = shape(comp, "completed") == shape(fail, "failed")
     ctx.ob("C20.R5", "State.increment_completed~increment_failed", ok, loc(comp), "equal as ASTs modulo the incremented counter" if ok else
            "completed/failed transitions differ beyond the counter (running counts / elapsed attribution drift)")
